@@ -5,7 +5,7 @@ CONSTANTS
   SweepCovers = TRUE
   P = 5
   MaxNon = 3
-  Focus = FALSE
+  Focus = "none"
   MaxRef = 1
 INVARIANT Sorted
 INVARIANT Disjoint
